@@ -100,6 +100,10 @@ func randJ5sSource(r *vh.Rand, pkg string, force bool) string {
 		return s
 	}
 	flattened := map[string]bool{}
+	if force {
+		// the forced chain flattens Obj1 and Obj2: no random field may flatten them a second time
+		flattened["Obj1"], flattened["Obj2"] = true, true
+	}
 	fieldTy := func(self string) (ty string, attrs []string) {
 		switch r.Intn(12) {
 		case 0, 1:
